@@ -124,6 +124,30 @@ func c08Profiles() []Case {
 	return out
 }
 
+// clobberLoads runs every loader once on files of different content, so that
+// state shared between Load calls (pooled buffers, views into read buffers)
+// gets overwritten; results obtained before must not change.
+var clobberFiles = func() []Case {
+	prof := bytes.Repeat([]byte{0xEE}, 4000)
+	var out []Case
+	spec := gen.PNGSpec{W: 1, H: 1, BitDepth: 8, ColorType: 2, IDAT: []byte{0x78, 0x9c, 3, 0, 0, 0, 0, 1}, Pre: []gen.PNGChunk{{Type: "iCCP", Data: gen.ICCPChunk("c", prof, 0)}}}
+	d, i := spec.Build(prof, 0)
+	out = append(out, Case{"clobber png", d, i})
+	js := gen.JPEGSpec{SOFMarker: 0xC0, Precision: 8, W: 1, H: 1, Comps: jpegComps(1, []byte{1, 1}), Before: []gen.JPEGSeg{gen.ICCSeg(1, 1, prof)}, Scan: []byte{0}}
+	dj, evs := js.Build()
+	out = append(out, Case{"clobber jpeg", dj, gen.JPEGModel(js, evs)})
+	dw, iw := gen.WebPVP8X(0x20, 0, 0, prof, nil)
+	out = append(out, Case{"clobber webp", dw, iw})
+	return out
+}()
+
+func clobberLoads() {
+	for i := range clobberFiles {
+		_, _ = load(loaderFor(clobberFiles[i].Info.Format), bytes.NewReader(clobberFiles[i].Data))
+		_, _ = load(&loaders[3], bytes.NewReader(clobberFiles[i].Data))
+	}
+}
+
 type c08Sample struct {
 	Input, Loader, Schedule, Outcome string
 }
@@ -138,7 +162,7 @@ func C08(tier string) {
 	}
 	dfsIn, uniIn := c08Inputs(tier)
 	profiles := c08Profiles()
-	r.Rule(fmt.Sprintf("reader-answer exploration: every Read call of the source is a choice point with answers {FULL, FULL+EOF (last bytes), SHORT(1), SHORT(2), SHORT(3), SHORT(n/2), SHORT(n-1)}; depth-first over all answer sequences with <= %d deviations from FULL, each executed on a fresh loader (specific + autometa) and compared with the all-at-once outcome over bytes.Reader; inputs: %d files <= 64 KiB (format seeds, corrupt and truncated variants, PNG chunk headers across the 4096/8192 boundaries, ICC payloads around buffer sizes in all three containers, WebP header grammar, small repository images); uniform schedules 1,2,3,7,8,4095,4096,4097 bytes per call with and without EOF piggy-backed on those plus %d larger files; ICC reader: %d profiles behind no buffer, bufio(16) and bufio(4096) under the same exploration; states = choice points visited, transitions = answers taken, traces = executions", bound, len(dfsIn), len(uniIn), len(profiles)))
+	r.Rule(fmt.Sprintf("reader-answer exploration: every Read call of the source is a choice point with answers {FULL, FULL+EOF (last bytes), SHORT(1), SHORT(2), SHORT(3), SHORT(n/2), SHORT(n-1)}; depth-first over all answer sequences with <= %d deviations from FULL, each executed on a fresh loader (specific + autometa) and compared with the all-at-once outcome over bytes.Reader (when a profile was returned, three other files are loaded before the comparison, so a result that is only a view into shared buffers shows); inputs: %d files <= 64 KiB (format seeds, corrupt and truncated variants, PNG chunk headers across the 4096/8192 boundaries, ICC payloads around buffer sizes in all three containers, WebP header grammar, small repository images); uniform schedules 1,2,3,7,8,4095,4096,4097 bytes per call with and without EOF piggy-backed on those plus %d larger files; ICC reader: %d profiles behind no buffer, bufio(16) and bufio(4096) under the same exploration; states = choice points visited, transitions = answers taken, traces = executions", bound, len(dfsIn), len(uniIn), len(profiles)))
 	r.Assume("(0, nil) answers are not generated: the property lists all-at-once, one byte per call, arbitrary short reads and final data together with EOF")
 	r.Assume("error texts are not compared, only presence of an error / ICC error, metadata fields and ICC bytes")
 
@@ -204,6 +228,9 @@ func C08(tier string) {
 			envx.Explore(bound, func(prefix []int) (*envx.Src, string) {
 				src := &envx.Src{Data: c.Data, Alpha: envx.Alphabet{Shorts: true, EOFs: true}, Prefix: prefix, MaxTrace: 48}
 				o, _ := load(l, src)
+				if !o.ICCNil {
+					clobberLoads() // the result must stay what it was when other files are loaded afterwards
+				}
 				if !o.equal(base) {
 					r.Violate("schedule/"+l.Name, fmt.Sprintf("%s.Load on %s: all at once gives [%s], under the schedule {%s} it gives [%s]", l.Name, c.Name, base, envx.TraceString(src.Trace), o),
 						map[string]interface{}{"input": c.Name, "loader": l.Name, "choices": prefix, "schedule": envx.TraceString(src.Trace), "len": len(c.Data), "data_hex_first_256": hexHead(c.Data, 256)},
